@@ -26,6 +26,8 @@ pub enum Ending {
     WriteShapes(u8),
     /// the writer is dropped by stack unwinding (the caller panics with the writer alive)
     DropWhilePanicking,
+    /// consumed by write_shapes(self, [shape of the palette's other type; k])
+    WriteShapesOther(u8),
 }
 
 pub const ENDINGS: [Ending; 6] = [
@@ -44,10 +46,11 @@ impl Ending {
             Ending::FinalizeDrop => "finalize+drop".into(),
             Ending::WriteShapes(k) => format!("write_shapes(c x{})", k),
             Ending::DropWhilePanicking => "drop-while-panicking".into(),
+            Ending::WriteShapesOther(k) => format!("write_shapes(other type x{})", k),
         }
     }
     pub fn from_name(s: &str) -> Option<Ending> {
-        ENDINGS.iter().copied().find(|e| e.name() == s)
+        ENDINGS.iter().copied().chain([Ending::WriteShapesOther(1), Ending::WriteShapesOther(2)]).find(|e| e.name() == s)
     }
 }
 
@@ -185,6 +188,13 @@ pub fn exec_writer(
         Ending::FinalizeDrop => {
             let wr = w.as_mut().unwrap();
             to_res(catch(|| wr.finalize()))
+        }
+        Ending::WriteShapesOther(k) => {
+            let wr = w.take().unwrap();
+            let c = pal.other.as_ref().expect("palette has no other-type shape");
+            to_res(catch(move || {
+                with_concrete!(c, s => wr.write_shapes(std::iter::repeat(s).take(k as usize)), unreachable!())
+            }))
         }
         Ending::WriteShapes(k) => {
             let wr = w.take().unwrap();
